@@ -236,3 +236,23 @@ def run_case(spec, ctx):
     nontrivial = (rg.depth(I) >= 1 or rg.is_boundary(E)) and (len(R) >= 1 or spec["two_stage"]) and decided_n > 0
     return {"nontrivial": bool(nontrivial), "classes": classes,
             "summary": {"fixed": S, "free": R, "decided_rows": decided_n}}
+
+
+def extra_cases(tier, seed):
+    """declared-flag compositions (their exact volume depends on the flag surviving evaluation)."""
+    C = lambda *v: {"k": "const", "v": list(v)}
+    A1 = lambda base, a: {"k": "affine", "var": "p", "v0": list(base), "V1": [[x] for x in a]}
+    big = {"t": "circle", "var": "x", "c": A1([0.2, -0.1], [0.5, 0.3]), "r": C(1.0)}
+    small = {"t": "circle", "var": "x", "c": A1([0.3, 0.0], [0.5, 0.3]), "r": C(0.4)}
+    far = {"t": "par", "var": "x", "o": A1([3.0, 0.0], [0.5, 0.3]), "c1": A1([4.0, 0.2], [0.5, 0.3]), "c2": A1([2.9, 1.0], [0.5, 0.3])}
+    out = []
+    for i, E in enumerate([{"t": "cut", "a": big, "b": small, "contained": True},
+                           {"t": "union", "a": big, "b": far, "disjoint": True},
+                           {"t": "translate", "a": {"t": "cut", "a": big, "b": small, "contained": True}, "v": A1([1.0, 1.0], [0.2, 0.0])},
+                           {"t": "boundary", "a": {"t": "cut", "a": big, "b": small, "contained": True}}]):
+        for extra in (False, True):
+            out.append({"dom": {"E": E, "kind": "boundary" if E["t"] == "boundary" else "interior", "pvars": ["p"],
+                                "lattice": False, "far": False},
+                        "prows": {"p": [[0.4]]}, "fix": ["p"], "two_stage": False, "extra_name": extra, "n": 9,
+                        "rng": seed * 100 + i})
+    return out
